@@ -221,7 +221,32 @@ def run(ck):
     elif pat is not None:
         val = try_fold(pat)
         pairs = list(val.items()) if isinstance(val, dict) else val
-    ck.need(pairs, 'convert_dssp_to_martini: pattern table not found')
+    if not pairs:
+        # the table is constructed rather than written out: interpret the constructing statements (constants only)
+        from .. import interp
+        build = []
+        for st in conv.body:
+            stores = any((isinstance(n, ast.Name) and n.id == 'patterns' and isinstance(n.ctx, ast.Store)) or
+                         (isinstance(n, ast.Subscript) and isinstance(n.ctx, ast.Store) and u(n.value) == 'patterns') or
+                         (isinstance(n, ast.Call) and isinstance(n.func, ast.Attribute) and u(n.func.value) == 'patterns' and n.func.attr in ('update', 'setdefault', 'pop', 'move_to_end'))
+                         for n in ast.walk(st))
+            if stores:
+                build.append(st)
+        env = {'collections.OrderedDict': dict, 'OrderedDict': dict, 'range': range, 'dict': dict}
+        try:
+            interp.run_stmts(build, env)
+            if isinstance(env.get('patterns'), dict):
+                pairs = list(env['patterns'].items())
+                pat = build[0]
+                ck.note('convert_dssp_to_martini: pattern table is constructed by {} statement(s); interpreted to {} patterns'.format(len(build), len(pairs)))
+        except (interp.Unsupported, interp.Returned, TypeError, ValueError, KeyError) as err:
+            ck.note('pattern table construction outside the interpretable fragment: {}'.format(err))
+    if not pairs:
+        ck.ob('TAB-helix', mod.loc(conv), False, 'convert_dssp_to_martini: the helix rewrite table could not be determined (neither a literal nor constructed from constants)',
+              key='TAB-helix|table')
+        return
+    if pat is None or not hasattr(pat, 'lineno'):
+        pat = conv
     ck.expect_count('TAB-helix patterns', len(pairs), 9)
     for p, r in pairs:
         same_len = len(p) == len(r)
